@@ -192,7 +192,7 @@ CHECKS = {
         "bytes 1012-1013 are 0x40 0x40; inputs under 24 bytes, with a first length above the maximum, or with an "
         "unconfigured bit are invalid with that reason; ASCII / EBCDIC digit MTIs give latin1 / cp037 by decide on the "
         "isnumeric tables measured each run (Props/C17.lean). Tied to /repo by writer output for block counts 1..10,12,20 x "
-        "6 codecs x 2 formats, stream lengths aligned to block boundaries, and the invalid classes at their boundaries. In addition a SOURCE TIE: harness/pytrans.py translates the current Python text of mciipm.block_1014_check and encoding_check into Lean (Gen/Src.lean) on every run and lean/Cardutil/SrcTie/Info.lean proves, for all inputs, that the translation equals the model (and restates the property for the translated code); when the source changes so that this no longer checks, the check runs its thorough generators before answering (the correspondence remains the deciding tie).",
+        "6 codecs x 2 formats, stream lengths aligned to block boundaries, and the invalid classes at their boundaries. In addition a SOURCE TIE: harness/pytrans.py translates the current Python text of mciipm.ipm_info, bitmap_check, block_1014_check and encoding_check (and BitArray.tolist, which bitmap_check uses) into Lean (Gen/Src.lean) on every run and lean/Cardutil/SrcTie/Info.lean proves, for all inputs, that the translation equals the model — ipm_info_eq: the translated ipm_info returns exactly the dictionary of the model's result for every byte string (and restates the property for the translated code); when the source changes so that this no longer checks, the check runs its thorough generators before answering (the correspondence remains the deciding tie).",
         "Trusted: as C03/C04; the link 'writer output has a valid first length/bitmap/MTI' rests on C02's layout theorem plus correspondence.",
         "DESIGN.md §8 C17"),
     'C19': (
